@@ -86,6 +86,19 @@ def randomize(wf, rng, skip=("mo_coeff", "det_coeff"), scale=0.3):
     return wf
 
 
+def complex_orbitals(mf):
+    """the same mean-field object with each occupied orbital mixed with a virtual one through an imaginary coefficient: orbitals whose
+    phase varies in space, so that wave-function ratios are genuinely complex (a constant phase would cancel)"""
+    import copy
+    m = copy.copy(mf)
+    C = np.asarray(mf.mo_coeff).astype(complex)
+    nocc = int(np.sum(np.asarray(mf.mo_occ) > 0))
+    for j in range(nocc):
+        C[:, j] = C[:, j] + 1j * (0.3 + 0.1 * j) * np.asarray(mf.mo_coeff)[:, nocc + (j % (C.shape[1] - nocc))]
+    m.mo_coeff = C
+    return m
+
+
 def obc_wfs(rng, which="all", jax=True):
     """list of (name, mol, wf) for open boundary conditions"""
     from pyqmc.wf.slater import Slater
@@ -123,6 +136,7 @@ def obc_wfs(rng, which="all", jax=True):
         out.append(("multislater_casci*jastrow", molc, MultiplyWF(Slater(molc, mfc, mc=mc, tol=0.0), jast(molc))))
         out.append(("add(sj,sj)", mol, AddWF([0.7, 0.5], [MultiplyWF(Slater(mol, mf), jast()), MultiplyWF(Slater(mol, mf), jast())])))
         out.append(("add(sj,sj3)complexcoef", mol, AddWF([0.7, 0.2 + 0.4j], [MultiplyWF(Slater(mol, mf), jast()), MultiplyWF(Slater(mol, mf), jast(), j3())])))
+        out.append(("slater_complex_orbitals*jastrow", mol, MultiplyWF(Slater(mol, complex_orbitals(mf)), jast())))
         if jax:
             try:
                 from pyqmc.wf.jax.slater import JAXSlater
@@ -150,6 +164,9 @@ def pbc_wfs(rng, which="all"):
         cellt, mft = h_pbc_tri()
         supt = pyq.get_supercell(cellt, S=np.array([[1, 1, 0], [-1, 1, 0], [0, 0, 1]]))
         out.append(("pbc_triclinic_slater_twist1*jastrow", supt, MultiplyWF(Slater(supt, mft, twist=1, eval_gto_precision=1e-6), randomize(generate_jastrow(supt)[0], rng))))
+        cell3, mf3 = h_pbc_k3()
+        sup3 = pyq.get_supercell(cell3, S=np.eye(3))
+        out.append(("pbc_k3_slater_twist1*jastrow", sup3, MultiplyWF(Slater(sup3, mf3, twist=1, eval_gto_precision=1e-6), randomize(generate_jastrow(sup3)[0], rng))))
         sup2 = pyq.get_supercell(cell, S=np.diag([2, 1, 1]))
         out.append(("pbc_slater_complex_twist", sup2, Slater(sup2, mf, twist=1, eval_gto_precision=1e-6)))
         a, b = default_jastrow_basis(sup2)
